@@ -96,6 +96,14 @@ def units(ctx):
     from contracts import utils as _ut
     from vlib.pyvc.unit import contract_unit as _cu2
     us += [_cu2(c, world_setup=_ut.setup) for c in _ut.predicate_contracts()]
+    # the output options a statement is finalised under are those of the
+    # engine it was parsed by: every call parses (no tree shared between
+    # engines with different options), copy() carries its own options
+    from contracts import core_glue as _cg10
+    from vlib.pyvc.unit import contract_unit as _cu10
+    us += [_cu10(c, world_setup=_cg10.setup) for c in _cg10.contracts()
+           if c.short in ('factory.YaqlEngine.__call__',
+                          'factory.YaqlEngine.copy')]
     return us
 
 
